@@ -133,6 +133,8 @@ def build(seed, wa):
         else:
             sd = float(10 ** rng.uniform(-2, 0))
             sensors.append(measurements.BodyVelocity(sim.generate_body_velocity_measurements(ref, sd, ms), sd))
+    if len(sensors) > 1 and rng.random() < 0.6:
+        sensors = [sensors[i] for i in rng.permutation(len(sensors))]          # listed in any order
     # a receiver that reports a FULL covariance (correlated components), as a user-defined Measurement would: the estimator must be optimal for
     # any positive-definite R, not only sd^2 I
     correlated = 0
